@@ -81,6 +81,11 @@ func refScope(ns []snode, e *senv, files map[string][]snode, sb *strings.Builder
 			e.frames = e.frames[:len(e.frames)-1]
 		case "if":
 			refScope(n.body, e, files, sb) // no scope of its own
+		case "forempty":
+			// nothing to iterate: the empty branch runs once, in the loop's own scope
+			e.frames = append(e.frames, sframe{})
+			refScope(n.body, e, files, sb)
+			e.frames = e.frames[:len(e.frames)-1]
 		case "macro":
 			e.macros[n.name] = &smacro{params: n.params, body: n.body, depth: len(e.frames)}
 			// the macro's name is bound like a variable in the current frame
@@ -167,7 +172,9 @@ func (g *c12gen) node(d int) snode {
 		}
 		return snode{k: "probe", name: r.Pick(c12names)}
 	}
-	switch r.Intn(7) {
+	switch r.Intn(8) {
+	case 7:
+		return snode{k: "forempty", name: r.Pick(c12names[:3]), body: g.nodes(d - 1)}
 	case 0:
 		return snode{k: "with", name: r.Pick(c12names[:3]), val: g.lit(), body: g.nodes(d - 1)}
 	case 1:
@@ -230,6 +237,8 @@ func c12Src(ns []snode, macs map[string]snode) string {
 			sb.WriteString("{% for " + n.name + " in two %}" + c12Src(n.body, macs) + "{% endfor %}")
 		case "if":
 			sb.WriteString("{% if 1 %}" + c12Src(n.body, macs) + "{% endif %}")
+		case "forempty":
+			sb.WriteString("{% for " + n.name + " in nothing_here %}never{% empty %}" + c12Src(n.body, macs) + "{% endfor %}")
 		case "macro":
 			sb.WriteString("{% macro " + n.name + "(" + strings.Join(n.params, ", ") + ") %}" + c12Src(n.body, macs) + "{% endmacro %}")
 			macs[n.name] = n
@@ -277,7 +286,7 @@ func deepCopyCtx(c pongo2.Context) pongo2.Context {
 }
 
 func suiteC12(cfg Config, res *Result) {
-	res.Rule = "generated nestings (depth <= 4) of with / for / macro definition+call / set / if / include (with pair, only) over the colliding names a b c plus a global g1, probed with [name={{ name }}] before, inside and after every construct; compared with a reference lexical-environment model and with the Lean model; plus, for every program of this suite and of the general generator, a deep comparison of the caller's Context and the set's Globals before and after execution, and rejection of invalid / macro-clashing context keys; non-trivial = tree with >= 2 binding constructs; distinct by tree"
+	res.Rule = "generated nestings (depth <= 4) of with / for (body and empty branch) / macro definition+call / set / if / include (with pair, only) over the colliding names a b c plus a global g1, probed with [name={{ name }}] before, inside and after every construct; compared with a reference lexical-environment model and with the Lean model; plus, for every program of this suite and of the general generator, a deep comparison of the caller's Context and the set's Globals before and after execution, and rejection of invalid / macro-clashing context keys; non-trivial = tree with >= 2 binding constructs; distinct by tree"
 	n := 4000
 	if cfg.Thorough() {
 		n = 80000
